@@ -172,6 +172,17 @@ Theorem C01_finish_saved_ip_refuted :
 Proof. exact stop_saved_ip_is_trampoline_refuted. Qed.
 Print Assumptions C01_finish_saved_ip_refuted.
 
+(* for all thread schedules: the shadow state is per thread (mtd is thread-local, stacks are disjoint); in any
+   interleaving [sched] of (thread, operation) pairs, a thread t that performs the operations of a call tree
+   has every return go to its real caller, whatever the other threads do in between *)
+Theorem C01_threads_return_to_real_callers : forall (trees : nat -> call) (sched : list (nat * op)) (t : nat),
+  proj t sched = full 1%nat (trees t) ->
+  no_recover (trees t) = true ->
+  targets (proj t (snd (run_sched (fun _ => st0) sched))) = map Some (native (trees t)) /\
+  rs (fst (run_sched (fun _ => st0) sched) t) = [].
+Proof. exact threads_return_to_real_callers. Qed.
+Print Assumptions C01_threads_return_to_real_callers.
+
 (* --estimate-return: the model of the entry hooks in this mode (mcount_rstack_inject_return + push, no
    hijack, no exit hook) never writes a return-address slot: EVERY call tree - any hooks, any triggers -
    returns natively from any state of the shadow stack *)
